@@ -254,6 +254,22 @@ Proof.
 Qed.
 Print Assumptions C20_orbit_sim_ok.
 
+(* all plain upper/lower pairs of the claimed domain (Model/FoldD.pair_dom: the letters of ASCII, Latin-1,
+   Greek and Cyrillic whose fold orbit is exactly {lower, upper}, 3xx pairs) lie inside orbit_sim, so the two
+   leaf theorems below apply to the property's own relation *)
+Theorem C20_plain_pairs_in_orbit_sim :
+  (forall x, In x pair_dom -> orbit_sim x (fold_t x) /\ pairs_sim pair_dom_pairs x (fold_t x)) /\
+  (forall x y, pairs_sim pair_dom_pairs x y -> orbit_sim x y).
+Proof.
+  assert (H : forall x y, pairs_sim pair_dom_pairs x y -> orbit_sim x y)
+    by exact (clink_pairs_sub_orbit pair_dom_pairs clink_pair_dom_in_orbits).
+  split; [|exact H]. intros x Hx.
+  assert (P : pairs_sim pair_dom_pairs x (fold_t x)).
+  { right. left. unfold pair_dom_pairs. apply in_map_iff. exists x. split; [reflexivity|exact Hx]. }
+  split; [apply H, P | exact P].
+Qed.
+Print Assumptions C20_plain_pairs_in_orbit_sim.
+
 (* The Set-leaf condition of ci_closed holds for the class the parser builds for ANY bracket expression
    under IgnoreCase (alone or with ECMAScript / RE2), negated classes and nested subtraction included:
    it does not distinguish two runes of one SimpleFold orbit.
